@@ -24,7 +24,9 @@ def checkLine (line : String) : String × String × Verdict :=
     let l := (lhs.trimAscii.toString.splitOn " ").filter (· ≠ "")
     let r := (rhs.trimAscii.toString.splitOn " ").filter (· ≠ "")
     match l with
-    | idx :: fam :: op :: args =>
+    | idx :: fam :: opd :: args =>
+      -- `op@d`: the harness may append the state of the destination (f fresh, p pre-used, a / b alias of an input)
+      let op := (opd.splitOn "@").headD opd
       let v := match fam with
         | "int" => checkInt op args r
         | "dy" => checkDy op args r
